@@ -26,7 +26,7 @@ ASSUMPTIONS = ["class body attributes are visited in declaration order (dict ord
 TRUSTED = ["/verif/sa path enumerator and call graph"]
 
 
-def rule_tofrom(ctx: Ctx):
+def rule_tofrom(ctx: Ctx, rule: str = "C15.to/from"):
     rep = ctx.rep
     to = ctx.fn("_ToState.__call__")
     for p in ctx.paths(to, inline=None, exc_edges="none"):
@@ -38,15 +38,43 @@ def rule_tofrom(ctx: Ctx):
             g = c.generators[0]
             ok = len(c.generators) == 1 and not g.ifs and show(g.iter) == to.node.args.vararg.arg and isinstance(g.target, ast.Name) and \
                 show(c.elt) == f"Transition(self._state, {g.target.id}, **kwargs)"
-        rep.check(bool(ok), "C15.to/from", to.loc(), "a.to(s1, s2, ...) builds Transition(a, s) for each given state, in order", to.key,
+        rep.check(bool(ok), rule, to.loc(), "a.to(s1, s2, ...) builds Transition(a, s) for each given state, in order", to.key,
                   show(comp.term) if comp is not None else "no comprehension")
         reg = [e for e in p.calls() if isinstance(e.term.func, ast.Attribute) and e.term.func.attr == "add_transitions"]
         ok = len(reg) == 1 and xshow(reg[0].term.func.value, evs) == "self._state.transitions" and p.kind == "return" and show(reg[0].term.args[0]) == show(p.value)
-        rep.check(ok, "C15.to/from", to.loc(), "the new transitions are registered on the source state and returned", to.key,
+        rep.check(ok, rule, to.loc(), "the new transitions are registered on the source state and returned", to.key,
                   "; ".join(e.show() for e in reg))
     fr = ctx.fn("_FromState.__call__")
     n = 0
-    for p in ctx.paths(fr, inline=None, exc_edges="none", unroll=2):
+    # build-all-then-attach form: `ts = TransitionList(Transition(o, self._state, **kwargs) for o in states)`, then every element is
+    # registered on its own source, then `ts` is returned
+    va = fr.node.args.vararg.arg if fr.node.args.vararg else None
+    comps = [c for c in own_nodes(fr.node) if isinstance(c, (ast.GeneratorExp, ast.ListComp)) and len(c.generators) == 1
+             and isinstance(c.elt, ast.Call) and show(c.elt.func) == "Transition"]
+    if comps:
+        c = comps[0]
+        g = c.generators[0]
+        ok = not g.ifs and show(g.iter) == va and isinstance(g.target, ast.Name) and \
+            [show(a) for a in c.elt.args] == [g.target.id, "self._state"] and any(k.arg is None and show(k.value) == "kwargs" for k in c.elt.keywords)
+        rep.check(bool(ok), rule, fr.loc(c), "b.from_(x, y, ...) builds Transition(origin, b) for each given origin, in order (never the reverse)", fr.key,
+                  show(c))
+        loops = [l for l in own_nodes(fr.node) if isinstance(l, ast.For) and isinstance(l.target, ast.Name)]
+        regs_ok = False
+        for l in loops:
+            el = l.target.id
+            for x in ast.walk(l):
+                if isinstance(x, ast.Call) and isinstance(x.func, ast.Attribute) and x.func.attr == "add_transitions" \
+                        and show(x.func.value) == f"{el}.source.transitions" and [show(a) for a in x.args] == [el]:
+                    regs_ok = True
+        rep.check(regs_ok, rule, fr.loc(), "each transition is registered on its origin state and collected in the returned list", fr.key,
+                  "no `<t>.source.transitions.add_transitions(<t>)` over the built list")
+        for p in ctx.paths(fr, inline=None, exc_edges="none", unroll=1):
+            if p.kind == "return":
+                v = xshow(p.value, p.events)
+                rep.check(v.startswith("TransitionList(") and "Transition(" in v, rule, fr.loc(), "from_() returns the list of the transitions it built",
+                          fr.key, f"return {v}")
+        n = 3
+    for p in ([] if comps else ctx.paths(fr, inline=None, exc_edges="none", unroll=2)):
         evs = p.events
         its = [e for e in evs if e.kind == "iter" and e.x.get("loop") == "for"]
         for i, it in enumerate(its):
@@ -57,7 +85,7 @@ def rule_tofrom(ctx: Ctx):
             ctor = [e for e in seg if e.kind == "call" and show(e.term.func) == "Transition"]
             ok = len(ctor) == 1 and [show(a) for a in ctor[0].term.args] == [elem, "self._state"] and \
                 any(k.arg is None and show(k.value) == "kwargs" for k in ctor[0].term.keywords)
-            rep.check(ok, "C15.to/from", it.loc(), f"b.from_(...): iteration {i} builds Transition(origin, b) (never the reverse)", fr.key,
+            rep.check(ok, rule, it.loc(), f"b.from_(...): iteration {i} builds Transition(origin, b) (never the reverse)", fr.key,
                       "; ".join(e.show() for e in ctor))
             if ctor:
                 t = f"$c{ctor[0].idx}"
@@ -75,28 +103,28 @@ def rule_tofrom(ctx: Ctx):
                         if later:
                             regs = regs + [later[0]]
                             break
-                rep.check(len(on_origin) == 1 and len(regs) == 2, "C15.to/from", it.loc(),
+                rep.check(len(on_origin) == 1 and len(regs) == 2, rule, it.loc(),
                           "each transition is registered on its origin state and collected in the returned list", fr.key,
                           "; ".join(e.show() for e in regs))
         if its:
-            rep.check(show(its[0].term) == fr.node.args.vararg.arg, "C15.to/from", its[0].loc(), "from_() ranges over the given origins in order", fr.key,
+            rep.check(show(its[0].term) == fr.node.args.vararg.arg, rule, its[0].loc(), "from_() ranges over the given origins in order", fr.key,
                       norm_stmt(its[0].node))
-    rep.floor("C15.to/from", "iterations of _FromState.__call__", n, 3)
+    rep.floor(rule, "iterations of _FromState.__call__", n, 3)
     it_ = ctx.fn("_TransitionBuilder.itself")
     for p in ctx.paths(it_, inline=None, exc_edges="none"):
         v = xshow(p.value, p.events) if p.kind == "return" else ""
-        rep.check(v in ("self.__call__(self._state, **kwargs)", "self(self._state, **kwargs)"), "C15.to/from", it_.loc(),
+        rep.check(v in ("self.__call__(self._state, **kwargs)", "self(self._state, **kwargs)"), rule, it_.loc(),
                   "to.itself()/from_.itself() is the call with the state itself as the other end", it_.key, f"return {v}")
     an = ctx.fn("_FromState.any")
     for p in ctx.paths(an, inline=None, exc_edges="none"):
         v = xshow(p.value, p.events) if p.kind == "return" else ""
-        rep.check(v in ("self.__call__(AnyState(), **kwargs)", "self(AnyState(), **kwargs)"), "C15.to/from", an.loc(),
+        rep.check(v in ("self.__call__(AnyState(), **kwargs)", "self(AnyState(), **kwargs)"), rule, an.loc(),
                   "from_.any() is from_(<ANY placeholder>)", an.key, f"return {v}")
     for prop, cls_ in (("to", "_ToState"), ("from_", "_FromState")):
         f = ctx.p.find_fn(f"State.{prop}")
         for p in ctx.paths(f, inline=None, exc_edges="none"):
             v = xshow(p.value, p.events) if p.kind == "return" else ""
-            rep.check(v == f"{cls_}(self)", "C15.to/from", f.loc(), f"State.{prop} builds on this very state", f.key, f"return {v}")
+            rep.check(v == f"{cls_}(self)", rule, f.loc(), f"State.{prop} builds on this very state", f.key, f"return {v}")
 
 
 def rule_any(ctx: Ctx, rule: str = "C15.any"):
@@ -128,7 +156,7 @@ def rule_any(ctx: Ctx, rule: str = "C15.any"):
                 rep.check(ok, rule, e.loc(), "every transition of the event is offered to its source state for expansion", tl.key, norm_stmt(e.node))
 
 
-def rule_wiring(ctx: Ctx):
+def rule_wiring(ctx: Ctx, rule: str = "C15.events"):
     """C15.events: whenever an event that carries transitions is added to the class, those transitions get the
     event - whether or not an event of that id is already known (mixed `event=` / attribute declarations)."""
     rep = ctx.rep
@@ -143,7 +171,7 @@ def rule_wiring(ctx: Ctx):
             if k_ in (f"{fn.params[1]}._transitions is None",):
                 has_tr = not v
         if real is True and has_tr is None:
-            rep.violation("C15.events", fn.loc(), "a path of add_event registers an event with a real id without looking at the transitions assigned "
+            rep.violation(rule, fn.loc(), "a path of add_event registers an event with a real id without looking at the transitions assigned "
                           "to it (mixing `event=` and attribute declarations leaves transitions without their event)", fn.key,
                           "path: " + ", ".join(f"{a}=={b}" for a, b in facts.items()))
             continue
@@ -151,13 +179,13 @@ def rule_wiring(ctx: Ctx):
             continue
         n += 1
         wired = [e for e in p.calls() if isinstance(e.term.func, ast.Attribute) and e.term.func.attr == "_on_event_defined"]
-        rep.check(len(wired) == 1, "C15.events", fn.loc(), "the transitions assigned to an event are wired to it even when the event id is already registered",
+        rep.check(len(wired) == 1, rule, fn.loc(), "the transitions assigned to an event are wired to it even when the event id is already registered",
                   fn.key, "path with transitions but without _on_event_defined: " + ", ".join(f"{a}=={b}" for a, b in facts.items()))
         if wired:
             kw = {k.arg: xshow(k.value, evs) for k in wired[0].term.keywords}
-            rep.check(kw.get("event") == fn.params[1] and kw.get("states") == f"list({fn.params[0]}.states)", "C15.events", wired[0].loc(),
+            rep.check(kw.get("event") == fn.params[1] and kw.get("states") == f"list({fn.params[0]}.states)", rule, wired[0].loc(),
                       "the wiring passes this event and the class's states", fn.key, norm_stmt(wired[0].node))
-    rep.floor("C15.events", "paths of add_event with a real id and transitions", n, 2)
+    rep.floor(rule, "paths of add_event with a real id and transitions", n, 2)
 
 
 def _isinstance_kinds(p, val: str):
@@ -391,7 +419,7 @@ def rule_or(ctx: Ctx):
                       cb.key, norm_stmt(its[0].node))
 
 
-def rule_events(ctx: Ctx):
+def rule_events(ctx: Ctx, rule: str = "C15.events"):
     rep = ctx.rep
     add = ctx.fn("Events.add")
     n = 0
@@ -401,7 +429,7 @@ def rule_events(ctx: Ctx):
         if len(its) >= 2:
             n += 1
             ok = xshow(its[0].term, evs) == f"ensure_iterable({add.params[1]})" and show(expand1(its[1].term, evs)) == f"{show(its[0].x['elem'])}.split(' ')"
-            rep.check(ok, "C15.events", its[0].loc(), "every event designator goes through ensure_iterable and a split on spaces", add.key,
+            rep.check(ok, rule, its[0].loc(), "every event designator goes through ensure_iterable and a split on spaces", add.key,
                       f"{xshow(its[0].term, evs)} / {xshow(its[1].term, evs)}")
             elem = show(its[1].x["elem"])
             apps = [e for e in p.calls() if show(e.term.func) == "self._items.append" and e.idx > its[1].idx]
@@ -409,15 +437,15 @@ def rule_events(ctx: Ctx):
                    and show(b.term.left) == elem and show(b.term.comparators[0]) == "self._items"]
             if apps:
                 ok = bool(dup) and dup[0].x["taken"] is False
-                rep.check(ok, "C15.events", apps[0].loc(), "an event id already present is not added twice", add.key, norm_stmt(apps[0].node))
+                rep.check(ok, rule, apps[0].loc(), "an event id already present is not added twice", add.key, norm_stmt(apps[0].node))
                 a = expand1(apps[0].term.args[0], evs)
                 isev = [b for b in p.of("branch") if xshow(b.term, evs) == f"isinstance({elem}, Event)"]
                 if isev and isev[0].x["taken"]:
-                    rep.check(show(a) == elem, "C15.events", apps[0].loc(), "an Event object is stored as is", add.key, norm_stmt(apps[0].node))
+                    rep.check(show(a) == elem, rule, apps[0].loc(), "an Event object is stored as is", add.key, norm_stmt(apps[0].node))
                 elif isev:
-                    rep.check(show(a) == f"Event(id={elem}, name={elem})", "C15.events", apps[0].loc(), "a plain id becomes Event(id, name=id)", add.key,
+                    rep.check(show(a) == f"Event(id={elem}, name={elem})", rule, apps[0].loc(), "a plain id becomes Event(id, name=id)", add.key,
                               norm_stmt(apps[0].node))
-    rep.floor("C15.events", "nested iterations of Events.add", n, 1)
+    rep.floor(rule, "nested iterations of Events.add", n, 1)
     sp = ctx.fn("Event.split")
     for p in ctx.paths(sp, inline=None, exc_edges="none", comps_for_loops=True):
         if p.kind != "return":
@@ -425,7 +453,7 @@ def rule_events(ctx: Ctx):
         one = [b for b in p.of("branch") if "len(" in xshow(b.term, p.events) and "== 1" in xshow(b.term, p.events)]
         v = expand1(p.value, p.events)
         if one and one[0].x["taken"]:
-            rep.check(show(v) == "[self]", "C15.events", sp.loc(), "splitting a single-id Event keeps the Event object (its name and transitions)", sp.key,
+            rep.check(show(v) == "[self]", rule, sp.loc(), "splitting a single-id Event keeps the Event object (its name and transitions)", sp.key,
                       f"return {show(v)}")
         elif one and isinstance(p.value, ast.Name) and p.value.id.startswith("$l"):
             # explicit loop: one Event per part, unfiltered
@@ -440,19 +468,19 @@ def rule_events(ctx: Ctx):
                 ok = ok and len(apps) == 1 and not any(x.kind == "branch" for x in seg) and \
                     show(expand1(apps[0].term.args[0], evs)) in (f"Event({show(a.x['elem'])})", f"Event(id={show(a.x['elem'])})")
             outside = [e for e in p.calls() if show(e.term.func).startswith(p.value.id + ".") and not any(a.idx < e.idx < b.idx for a, b in zip(marks, marks[1:]))]
-            rep.check(ok and not outside, "C15.events", sp.loc(), "splitting a multi-id Event gives one Event per id", sp.key, "explicit loop over the parts")
+            rep.check(ok and not outside, rule, sp.loc(), "splitting a multi-id Event gives one Event per id", sp.key, "explicit loop over the parts")
         elif one:
             ok = isinstance(v, ast.ListComp) and show(v.elt).startswith("Event(") and "super().split" in xshow(v.generators[0].iter, p.events)
-            rep.check(ok, "C15.events", sp.loc(), "splitting a multi-id Event gives one Event per id", sp.key, f"return {show(v)}")
+            rep.check(ok, rule, sp.loc(), "splitting a multi-id Event gives one Event per id", sp.key, f"return {show(v)}")
     ti = ctx.fn("Transition.__init__")
     got = None
     for n_ in own_nodes(ti.node):
         if isinstance(n_, ast.Assign) and any(show(t) == "self._events" for t in n_.targets):
             got = show(n_.value)
-    rep.check(got == "Events().add(event)", "C15.events", ti.loc(), "Transition(event=...) stores its events through Events.add", ti.key, f"self._events = {got}")
+    rep.check(got == "Events().add(event)", rule, ti.loc(), "Transition(event=...) stores its events through Events.add", ti.key, f"self._events = {got}")
     ae = ctx.fn("Transition.add_event")
     ok = any(isinstance(n_, ast.Call) and show(n_.func) == "self._events.add" and show(n_.args[0]) == ae.params[1] for n_ in own_nodes(ae.node))
-    rep.check(ok, "C15.events", ae.loc(), "naming an event later goes through the same Events.add", ae.key, "no self._events.add(value)")
+    rep.check(ok, rule, ae.loc(), "naming an event later goes through the same Events.add", ae.key, "no self._events.add(value)")
     tle = ctx.fn("TransitionList.add_event")
     for p in ctx.paths(tle, inline=None, exc_edges="none", unroll=1):
         its = [i for i in p.events if i.kind == "iter"]
@@ -460,17 +488,17 @@ def rule_events(ctx: Ctx):
         if its:
             ok = show(its[0].term) == "self.transitions" and calls and xshow(calls[0].term.func.value, p.events) == show(its[0].x["elem"]) \
                 and show(calls[0].term.args[0]) == tle.params[1]
-            rep.check(bool(ok), "C15.events", tle.loc(), "assigning a list to an event names that event on every transition of the list", tle.key,
+            rep.check(bool(ok), rule, tle.loc(), "assigning a list to an event names that event on every transition of the list", tle.key,
                       "; ".join(e.show() for e in calls))
     ei = ctx.fn("ensure_iterable")
     outs = set()
     for p in ctx.paths(ei, inline=None, exc_edges="try"):
         if p.kind == "return":
             outs.add(xshow(p.value, p.events))
-    rep.check(outs == {f"[{ei.params[0]}]", f"iter({ei.params[0]})"}, "C15.events", ei.loc(),
+    rep.check(outs == {f"[{ei.params[0]}]", f"iter({ei.params[0]})"}, rule, ei.loc(),
               "ensure_iterable wraps strings and non-iterables in a one-element list and iterates anything else", ei.key, f"returns {sorted(outs)}")
     strs = [b for p in ctx.paths(ei, inline=None, exc_edges="try") for b in p.of("branch") if xshow(b.term, p.events) == f"isinstance({ei.params[0]}, str)"]
-    rep.check(bool(strs), "C15.events", ei.loc(), "a string is one designator, not a sequence of characters", ei.key, "no isinstance(obj, str) test")
+    rep.check(bool(strs), rule, ei.loc(), "a string is one designator, not a sequence of characters", ei.key, "no isinstance(obj, str) test")
 
 
 def _enum_loop_form(ctx: Ctx, fn, p, obj: str):
@@ -584,4 +612,37 @@ def rule_enum(ctx: Ctx):
             rep.check(ok, "C15.enum", sfd.loc(), "each (id, state) of a States collection is added under its id", sfd.key, calls[0].show())
 
 
-RULES = [rule_tofrom, rule_any, rule_copy, rule_or, rule_events, rule_wiring, rule_attributes, rule_enum]
+def rule_first_event_object_wins(ctx: Ctx, rule: str = "C15.events"):
+    """One event id, one Event object on the class: `add_event` registers (dict entry and class attribute) only an id it has not
+    seen - otherwise the last declaration's Event object (its display name) replaces the first one's."""
+    rep = ctx.rep
+    fn = ctx.fn("StateMachineMetaclass.add_event")
+    n = 0
+    for p in ctx.paths(fn, inline=None, exc_edges="none"):
+        evs = p.events
+        for e in p.calls():
+            if show(e.term.func) == "setattr" and len(e.term.args) == 3 and show(e.term.args[0]) == fn.params[0]:
+                n += 1
+                guard = [b for b in evs[: e.idx] if b.kind == "branch" and "_events" in xshow(b.term, evs) and " in " in xshow(b.term, evs)]
+                ok = bool(guard) and ((" not in " in xshow(guard[-1].term, evs)) == bool(guard[-1].x["taken"]))
+                rep.check(ok, rule, e.loc(), "the class attribute of an event is set only when its id was not registered yet", fn.key, norm_stmt(e.node))
+    rep.floor(rule, "setattr sites in add_event", n, 1)
+
+
+def rule_any_copy_is_for_this_event(ctx: Ctx, rule: str = "C15.any"):
+    """Each expansion of a from_.any() placeholder is for the event being defined: the per-state copy is made with `event=event`,
+    not with every event the placeholder has collected so far."""
+    rep = ctx.rep
+    fn = ctx.fn("AnyState._on_event_defined")
+    n = 0
+    for p in ctx.paths(fn, inline=None, exc_edges="none", unroll=1):
+        for e in p.calls():
+            if isinstance(e.term.func, ast.Attribute) and e.term.func.attr == "_copy_with_args":
+                n += 1
+                kw = {k.arg: show(k.value) for k in e.term.keywords}
+                rep.check(kw.get("event") == fn.params[1], rule, e.loc(), "the copy made for a state carries the event being defined", fn.key,
+                          norm_stmt(e.node), kwargs=kw)
+    rep.floor(rule, "copy sites in AnyState._on_event_defined", n, 1)
+
+
+RULES = [rule_tofrom, rule_any, rule_copy, rule_or, rule_events, rule_wiring, rule_attributes, rule_enum, rule_first_event_object_wins, rule_any_copy_is_for_this_event]
